@@ -745,11 +745,13 @@ class PGPUID(ParentRef):
                                     SignatureType.Casual_Cert, SignatureType.Positive_Cert}:
                     continue
 
+                # ... and one that the key really made: the issuer named in a signature is a mere claim, and a
+                # signature that does not verify states nothing about the key (its validity period least of all)
                 if sig.signer_fingerprint:
-                    if self.parent.fingerprint == sig.signer_fingerprint:
+                    if self.parent.fingerprint == sig.signer_fingerprint and self.parent._issued(sig, self):
                         return sig
                 elif sig.signer:
-                    if self.parent.fingerprint == sig.signer:
+                    if self.parent.fingerprint == sig.signer and self.parent._issued(sig, self):
                         return sig
 
     @property
@@ -1663,10 +1665,14 @@ class PGPKey(Armorable, ParentRef, PGPObject):
         keyid, keytype = (self.fingerprint.keyid, SignatureType.DirectlyOnKey) if self.is_primary \
             else (self.parent.fingerprint.keyid, SignatureType.Subkey_Binding)
 
+        # what names the key as its issuer but was not made by it is not a self-signature
+        issuer = self if self.is_primary else self.parent
+
         ##TODO: filter out revoked signatures as well
         for sig in iter(sig for sig in self._signatures
                         if all([sig.type == keytype, sig.signer == keyid, not sig.is_expired])):
-            yield sig
+            if issuer._issued(sig, self):
+                yield sig
 
     @property
     def signers(self):
@@ -2514,6 +2520,22 @@ class PGPKey(Armorable, ParentRef, PGPObject):
                 sig._signature.subpackets.addnew('EmbeddedSignature', hashed=False, _sig=crosssig._signature)
 
         return self._sign(key, sig, **prefs)
+
+    def _issued(self, sig, subject):
+        """
+        ``True`` if ``sig`` is a cryptographically correct signature by this key over ``subject``.  No policy is
+        consulted here (an expired key did make its self-signatures); what cannot be checked is not correct.
+        """
+        try:
+            data = sig.hashdata(subject)
+            memo = sig.__dict__.setdefault('_issued_memo', {})
+            case = (str(self.fingerprint), bytes(sig.__sig__), data)
+            if case not in memo:
+                memo[case] = self._key.verify(data, sig.__sig__, getattr(hashes, sig.hash_algorithm.name)()) is True
+            return memo[case]
+
+        except Exception:
+            return False
 
     def is_considered_insecure(self, self_verifying=False):
         res = self.check_soundness(self_verifying=self_verifying)
